@@ -118,6 +118,18 @@ def run(ctx: Ctx) -> None:
                         ctx.violation({"mode": "identity", "fact": k}, {"n": n, "idx": idx}, True, False, clause=k)
     finally:
         cleanup(wd)
+    # ---- handles returned by Hugr.add_node along add/delete histories (index reuse): HugrStore model, no links
+    from . import c04
+    wd = workdir("c16s")
+    try:
+        rp = c04.Replayer(ctx, (-1, 0), "C16")
+        res = run_tlc("MC_HugrStore", c04.cfg(["a"], ["none"], "OffsetsTwo", 3 if quick else 5, 0, [1], False, 4 if quick else 5, "CountsAll", emit="state", laws=False,
+                                                view=False),    # no VIEW: every add/delete history (the free list is hidden implementation state)
+                      wd, workers=1, heap="4g", line_sink=lambda ln: rp.feed_path(ln) if isinstance(ln, dict) and "hist" in ln else None)
+        tlc_must_hold(ctx, "S2C add/delete histories: handle counts", res, "HugrStore model (handles)")
+        ctx.note("store_histories_replayed", rp.n)
+    finally:
+        cleanup(wd)
     # ---- part (b): handles returned by builders (shares the builder model)
     try:
         from . import builder_handles
